@@ -63,6 +63,7 @@ func c12(r *core.Run) {
 	} else {
 		c12Trip(r, tripper)
 	}
+	c12Const(r)
 	// only basic IVs become {start,+,step} in the IR
 	n := 0
 	for _, fn := range p.FuncsIn("pkg/analysis/ir") {
@@ -235,6 +236,45 @@ func c12IV(r *core.Run, fn *ssa.Function) {
 		if strings.HasSuffix(other.Type().String(), "ssa.BinOp") && inLoop(true) {
 			nBack++
 			r.Check(okFA, "C12.IV", fnm+"#back-edge-verification", ifi.Pos(), "every in-loop phi edge must be the recognised update, first mismatch bails out", "the in-loop phi edges are not verified against the recognised update: "+why)
+			// ... and the test is reached for every in-loop predecessor, not only for some of them
+			covered, path := true, []int(nil)
+			for _, lb := range fn.Blocks {
+				if len(lb.Instrs) == 0 {
+					continue
+				}
+				li, ok := lb.Instrs[len(lb.Instrs)-1].(*ssa.If)
+				if !ok {
+					continue
+				}
+				base, negL := core.StripNot(li.Cond)
+				lk, ok := base.(*ssa.Lookup)
+				if !ok {
+					continue
+				}
+				if _, isBlocks := core.FieldLoad(lk.X, "Blocks"); !isBlocks || !core.ReachAvoiding(lb, backEdges(fn))[b] {
+					continue
+				}
+				in := lb.Succs[0]
+				if negL {
+					in = lb.Succs[1]
+				}
+				h := core.LoopHeaderOf(lb)
+				if in == b || h == nil {
+					continue
+				}
+				cut := map[core.Edge]bool{}
+				for _, pr := range b.Preds {
+					for i, sc := range pr.Succs {
+						if sc == b {
+							cut[core.Edge{From: pr, Idx: i}] = true
+						}
+					}
+				}
+				if pth := core.PathAvoiding(in, h, cut); pth != nil {
+					covered, path = false, pth
+				}
+			}
+			r.Check(covered, "C12.IV", fnm+"#back-edge-verification-every-in-loop-edge", ifi.Pos(), "the verification is reached for every in-loop predecessor of the header", "some in-loop phi edges skip the verification ("+core.FmtPath(path)+"): with two latches (a continue in a post-less loop) the other latch's different update goes unchecked and the variable is still described as start + k*step")
 		} else if _, isPhi := other.(*ssa.Phi); isPhi && inLoop(false) {
 			nStart++
 			r.Check(okFA, "C12.IV", fnm+"#single-start-value", ifi.Pos(), "all out-of-loop edges must agree on one start value", "out-of-loop phi edges with different start values are accepted: "+why)
@@ -389,4 +429,60 @@ func c12Trip(r *core.Run, fn *ssa.Function) {
 		}, "count only for a basic (additive) induction variable", "a trip count is derived from a non-additive induction variable")
 	})
 	r.Floor("C12.TRIP", "stores of a computed trip count", n, 3)
+}
+
+
+// c12Const: start, bound and step constants enter the symbolic arithmetic exactly. The converter
+// func(*ssa.Const) SCEV may build a constant node only from a literal or from the exact decimal text of
+// the constant (big.Int.SetString of ExactString/String under ok); fixed-width accessors are lossy
+// (Const.Uint64 is 0 for negative values, Const.Int64 wraps above MaxInt64).
+func c12Const(r *core.Run) {
+	p := r.P
+	n := 0
+	for _, fn := range p.FuncsIn("pkg/analysis/loop") {
+		if len(fn.Params) != 1 || !strings.HasSuffix(fn.Params[0].Type().String(), "ssa.Const") || len(resultTypes(fn)) != 1 || !strings.HasSuffix(resultTypes(fn)[0].String(), "loop.SCEV") {
+			continue
+		}
+		fnm := core.FuncName(fn)
+		core.InstrsOf(fn, func(in ssa.Instruction) {
+			st, ok := in.(*ssa.Store)
+			if !ok {
+				return
+			}
+			fa, ok := st.Addr.(*ssa.FieldAddr)
+			if !ok || core.FieldName(fa.X.Type(), fa.Field) != "Value" || !strings.HasSuffix(core.Deref(fa.X.Type()).String(), "SCEVConstant") {
+				return
+			}
+			n++
+			good, why := false, core.Canon(st.Val)
+			for _, o := range core.Origins(st.Val) {
+				if c, ok := callTo(o, "math/big.NewInt"); ok {
+					if _, isC := core.ConstInt(c.Call.Args[0]); isC {
+						good = true
+						continue
+					}
+				}
+				if ex, ok := o.(*ssa.Extract); ok && ex.Index == 0 {
+					if c, ok := callTo(ex.Tuple, "(*math/big.Int).SetString"); ok {
+						src := core.Canon(c.Call.Args[1])
+						if (strings.Contains(src, "ExactString(") || strings.Contains(src, ".String(")) && strings.Contains(src, "param0.Value") {
+							ok1, n1, _ := core.MustPass(fn, st.Block(), core.BoolGuard(func(v ssa.Value) bool {
+								e2, ok := v.(*ssa.Extract)
+								return ok && e2.Tuple == ex.Tuple && e2.Index == 1
+							}, true))
+							if ok1 && n1 > 0 {
+								good = true
+								continue
+							}
+							why = "SetString result used without its ok flag"
+						}
+					}
+				}
+				good = false
+				break
+			}
+			r.Check(good, "C12.CONST", fnm+"#exact-constant", st.Pos(), "constant node is a literal or the exact decimal text of the SSA constant", "an SSA constant enters the loop arithmetic through a lossy conversion ("+why+"): negative or large start/bound/step values are misrepresented, so the closed form and trip count do not match the loop")
+		})
+	}
+	r.Floor("C12.CONST", "constant nodes built by the SSA-constant converter", n, 2)
 }
